@@ -222,6 +222,77 @@ func isGoroutineSafe(lv LValue) bool {
 	}
 }
 
+// readBufioNumber reads a number for file:read("*n") the way liolib's fscanf("%lf") does: it skips white
+// space (isspace of the "C" locale, line feeds included), takes the longest run of bytes that is a Lua
+// numeral or the beginning of one - [+-] digits [. digits] [e [+-] digits] or [+-] 0x hexdigits - and
+// leaves the first byte that cannot continue it unread. The conversion is parseNumber's, so that "*n",
+// tonumber and the lexer agree. ok is false when no numeral is there (end of file included); err reports
+// a failure of the underlying reader other than io.EOF.
+func readBufioNumber(reader *bufio.Reader) (v LNumber, ok bool, err error) {
+	peek := func() (byte, bool) {
+		b, e := reader.Peek(1)
+		if e != nil || len(b) == 0 {
+			if e != nil && e != io.EOF {
+				err = e
+			}
+			return 0, false
+		}
+		return b[0], true
+	}
+	for {
+		c, more := peek()
+		if !more {
+			return LNumber(0), false, err
+		}
+		if c != ' ' && (c < '\t' || c > '\r') {
+			break
+		}
+		reader.Discard(1)
+	}
+	tok := make([]byte, 0, 32)
+	accept := func(pred func(byte) bool) bool {
+		if c, more := peek(); more && pred(c) {
+			tok = append(tok, c)
+			reader.Discard(1)
+			return true
+		}
+		return false
+	}
+	isSign := func(c byte) bool { return c == '+' || c == '-' }
+	isDec := func(c byte) bool { return '0' <= c && c <= '9' }
+	isHex := func(c byte) bool { return isDec(c) || ('a' <= c|0x20 && c|0x20 <= 'f') }
+	accept(isSign)
+	nd, hex := 0, false
+	if accept(func(c byte) bool { return c == '0' }) {
+		nd = 1
+		hex = accept(func(c byte) bool { return c == 'x' || c == 'X' })
+	}
+	if hex {
+		for accept(isHex) {
+		}
+	} else {
+		for accept(isDec) {
+			nd++
+		}
+		if accept(func(c byte) bool { return c == '.' }) {
+			for accept(isDec) {
+				nd++
+			}
+		}
+		// an exponent only after a mantissa digit ("e5", ".e5" are not the beginning of any numeral)
+		if nd > 0 && accept(func(c byte) bool { return c == 'e' || c == 'E' }) {
+			accept(isSign)
+			for accept(isDec) {
+			}
+		}
+	}
+	if err != nil {
+		return LNumber(0), false, err
+	}
+	v, perr := parseNumber(string(tok))
+	return v, perr == nil, nil
+}
+
 func readBufioSize(reader *bufio.Reader, size int64) ([]byte, error, bool) {
 	result := []byte{}
 	read := int64(0)
